@@ -61,7 +61,7 @@ def shard_limit():
     (typical shards take seconds; the slowest under full load about one
     minute)."""
     import os
-    d = 240 if common.tier() != 'thorough' else 3000
+    d = 600 if common.tier() != 'thorough' else 3000
     return int(os.environ.get('VERIF_SHARD_TIMEOUT', d))
 
 
